@@ -345,6 +345,26 @@ def witness_search(tier, seed):
         sf = SMSimfile.blank()
         if Assets(song, simfile=sf).banner is not None or Assets(song, simfile=sf).music is not None:
             return dict(input="directory without matching entries", detail="answer is not None")
+        # the simfile directory spelled relatively ("." / "./" / "../Pack/Song" from inside it): a named file is still the answer
+        cwd = os.getcwd()
+        try:
+            os.chdir(song)
+            open("Cover.PNG", "w").write("x")
+            open("old-bn.png", "w").write("x")
+            for spelled in (".", "./", os.path.join("..", "Song")):
+                sf = SMSimfile.blank()
+                sf["BANNER"] = "cover.png"
+                got = Assets(spelled, simfile=sf).banner
+                if got is None or os.path.basename(got) != "Cover.PNG" or not os.path.exists(got):
+                    return dict(input=dict(simfile_dir=spelled, cwd="the song directory", BANNER="cover.png", directory=["Cover.PNG", "old-bn.png", "Sub/"]),
+                                detail=f"banner is {got!r}; the simfile names Cover.PNG (ignoring case), which exists")
+        finally:
+            os.chdir(cwd)
+            for nme in ("Cover.PNG", "old-bn.png"):
+                try:
+                    os.remove(os.path.join(song, nme))
+                except OSError:
+                    pass
         # the documented pattern for music is "has an audio extension": also a name that is nothing but the extension,
         # a name with several dots, and a near miss that only contains the extension
         for only, expect in ((".ogg", ".ogg"), (".MP3", ".MP3"), ("01. intro.v2.WAV", "01. intro.v2.WAV"), ("song.ogg.txt", None), ("ogg", None)):
